@@ -15,6 +15,8 @@ pub struct Case {
     pub g: GraphDesc,
     pub strat: Strat,
     pub threads: usize,
+    #[serde(default)]
+    pub block: Option<usize>,
 }
 
 pub fn exhaustive_strat() -> impl Strategy<Value = Strat> {
@@ -29,7 +31,7 @@ pub fn check_exhaustive(case: &Case, cov: &mut Cov, dup_inits: bool) -> Result<(
     let g = &case.g;
     let gm = GM::new(g);
     let r = g.reach();
-    let cfg = RunCfg::plain(case.strat, case.threads);
+    let cfg = RunCfg::plain(case.strat, case.threads).with_block(case.block);
     let out = run_checker(gm.clone(), &cfg, &PROP_NAMES, None, true, Duration::from_secs(120));
     if out.gave_up {
         fail!("inconclusive/workers-did-not-finish", "workers still running after 120 s: {:?}", cfg);
@@ -64,6 +66,7 @@ pub fn check_exhaustive(case: &Case, cov: &mut Cov, dup_inits: bool) -> Result<(
     // classification
     cov.label(case.strat.label());
     cov.label_if(case.threads > 1, "threads>1");
+    cov.label_if(case.block.map_or(false, |b| r.set.len() > b), "block_boundary_crossed");
     let shared = threads_seen.len() >= 2;
     cov.label_if(shared, "shared_work");
     let feats = g.features();
@@ -96,15 +99,15 @@ impl SubCheck for Small {
         p.min_props = 0;
         p.max_n = tier.pick(28, 60);
         p.max_deg = 4;
-        (graph_strategy(p), exhaustive_strat(), threads_strategy())
-            .prop_map(|(g, strat, threads)| Case { g, strat, threads })
+        (graph_strategy(p), exhaustive_strat(), threads_strategy(), block_strategy())
+            .prop_map(|(g, strat, threads, block)| Case { g, strat, threads, block })
             .boxed()
     }
     fn check(&self, case: &Case, cov: &mut Cov) -> Result<(), Fail> {
         check_exhaustive(case, cov, false)
     }
     fn mandatory(&self) -> Vec<&'static str> {
-        vec!["bfs", "dfs", "on_demand", "threads>1", "join", "cycle", "oob_successor", "ignored_action", "multi_init"]
+        vec!["bfs", "dfs", "on_demand", "threads>1", "join", "cycle", "oob_successor", "ignored_action", "multi_init", "shared_work", "block_boundary_crossed"]
     }
 }
 
@@ -126,8 +129,8 @@ impl SubCheck for DupInits {
         p.dup_inits = true;
         p.max_inits = 4;
         p.max_n = 10;
-        (graph_strategy(p), exhaustive_strat(), threads_strategy())
-            .prop_map(|(g, strat, threads)| Case { g, strat, threads })
+        (graph_strategy(p), exhaustive_strat(), threads_strategy(), block_strategy())
+            .prop_map(|(g, strat, threads, block)| Case { g, strat, threads, block })
             .boxed()
     }
     fn check(&self, case: &Case, cov: &mut Cov) -> Result<(), Fail> {
@@ -161,22 +164,23 @@ impl SubCheck for Big {
     }
     fn strategy(&self, tier: Tier) -> BoxedStrategy<BigCase> {
         let max_n = tier.pick(9000u32, 60000u32);
-        (any::<u64>(), 1600u32..max_n, 0u32..3, exhaustive_strat(), prop_oneof![Just(2usize), Just(4usize), Just(8usize), Just(16usize)])
+        (any::<u64>(), 1600u32..max_n, 0u32..3, exhaustive_strat(), prop_oneof![Just(1usize), Just(2usize), Just(4usize), Just(8usize), Just(16usize)])
             .prop_map(|(seed, n, deg, strat, threads)| BigCase { seed, n, deg, strat, threads })
             .boxed()
     }
     fn check(&self, c: &BigCase, cov: &mut Cov) -> Result<(), Fail> {
         let all: BTreeSet<u32> = (0..c.n).collect();
         let g = big_graph(c.seed, c.n, c.deg, vec![PropDesc { exp: Exp::Always, on: all }]);
-        let case = Case { g, strat: c.strat, threads: c.threads };
+        let case = Case { g, strat: c.strat, threads: c.threads, block: None };
         let mut inner = Cov::new(0);
         check_exhaustive(&case, &mut inner, false)?;
         cov.eval();
         cov.label(c.strat.label());
         if inner.labels.contains_key("shared_work") {
             cov.label("shared_work");
-            cov.nontrivial(&(c.seed, c.n, c.deg, c.strat, c.threads));
         }
+        // every case here crosses the default 1500-state block boundary
+        cov.nontrivial(&(c.seed, c.n, c.deg, c.strat, c.threads));
         if cov.wants_sample() {
             cov.sample(json!({"big_graph_seed": c.seed, "n": c.n, "extra_degree": c.deg, "strategy": c.strat.label(), "threads": c.threads, "shared_work": inner.labels.contains_key("shared_work")}));
         }
